@@ -23,7 +23,7 @@ const (
 // fn, literals included.
 func calleeSet(f *core.FuncInfo) map[string]bool {
 	out := map[string]bool{}
-	ast.Inspect(f.Body(), func(x ast.Node) bool {
+	core.InspectBody(f, func(x ast.Node) bool {
 		if call, ok := x.(*ast.CallExpr); ok {
 			if fn := core.Callee(f.Info(), call); fn != nil {
 				out[core.ShortName(fn)] = true
@@ -60,7 +60,7 @@ func storedFieldsInto(f *core.FuncInfo, out map[string]token.Pos, depth int, see
 	seen[f] = true
 	info := f.Info()
 	if depth > 0 {
-		ast.Inspect(f.Body(), func(x ast.Node) bool {
+		core.InspectBody(f, func(x ast.Node) bool {
 			if call, ok := x.(*ast.CallExpr); ok {
 				if fn := core.Callee(info, call); fn != nil && fn.Pkg() != nil && fn.Pkg() == f.Pkg.Types && !fn.Exported() {
 					if refs := f.W.RefsTo(map[types.Object]bool{fn.Origin(): true}); len(refs) == 1 {
@@ -92,7 +92,7 @@ func storedFieldsInto(f *core.FuncInfo, out map[string]token.Pos, depth int, see
 			out[v.Name()] = lhs.Pos()
 		}
 	}
-	ast.Inspect(f.Body(), func(x ast.Node) bool {
+	core.InspectBody(f, func(x ast.Node) bool {
 		switch s := x.(type) {
 		case *ast.AssignStmt:
 			for _, l := range s.Lhs {
@@ -128,7 +128,7 @@ func deltaStores(f *core.FuncInfo, field string) (out []struct {
 			Pos  token.Pos
 		}{sign, rhs, pos})
 	}
-	ast.Inspect(f.Body(), func(x ast.Node) bool {
+	core.InspectBody(f, func(x ast.Node) bool {
 		as, ok := x.(*ast.AssignStmt)
 		if !ok || len(as.Lhs) != 1 || len(as.Rhs) != 1 || !isField(as.Lhs[0]) {
 			return true
@@ -208,7 +208,7 @@ func init() {
 				}
 				si, sr := storedFields(ins), storedFields(rem)
 				// delete(cache.txMap, hash) is a mutation of txMap as well
-				ast.Inspect(rem.Body(), func(x ast.Node) bool {
+				core.InspectBody(rem, func(x ast.Node) bool {
 					if call, ok := x.(*ast.CallExpr); ok && core.IsBuiltinCall(rem.Info(), call, "delete") && len(call.Args) == 2 {
 						if sel, ok := ast.Unparen(call.Args[0]).(*ast.SelectorExpr); ok {
 							sr[sel.Sel.Name] = call.Pos()
@@ -256,7 +256,7 @@ func init() {
 				// the map entry is the list element of the bucket, under the caller's hash
 				c := ins.Ctx()
 				ok, pos := false, ins.Node().Pos()
-				ast.Inspect(ins.Body(), func(x ast.Node) bool {
+				core.InspectBody(ins, func(x ast.Node) bool {
 					as, isA := x.(*ast.AssignStmt)
 					if !isA || len(as.Lhs) != 1 || len(as.Rhs) != 1 {
 						return true
@@ -306,7 +306,7 @@ func init() {
 				if f := r.Fn(skq + "CreateSkipValue"); f != nil {
 					c := f.Ctx()
 					ok := false
-					ast.Inspect(f.Body(), func(x ast.Node) bool {
+					core.InspectBody(f, func(x ast.Node) bool {
 						if kv, isKV := x.(*ast.KeyValueExpr); isKV {
 							if id, isId := kv.Key.(*ast.Ident); isId && id.Name == "Score" && core.CallsAny(skp+"Scorer.GetScore")(c, kv.Value) && core.Mentions("param:0")(c, kv.Value) {
 								ok = true
